@@ -707,9 +707,41 @@ func constResults(fn *ssa.Function, idx int, val map[string]int64, depth int) (v
 	ok = true
 	ei := errorResultIndex(fn)
 	reach := psReachVal(fn, []*ssa.BasicBlock{fn.Blocks[0]}, nil, val)
+	edges := lastPsEdges
 	for _, b := range fn.Blocks {
 		r, isR := b.Instrs[len(b.Instrs)-1].(*ssa.Return)
 		if !isR || !reach[b] || idx >= len(r.Results) {
+			continue
+		}
+		// result variables: a value and an error merged at the return, judged per incoming edge actually taken
+		if ph, isPhi := returnedValue(r, idx).(*ssa.Phi); isPhi && ph.Block() == b {
+			var eph *ssa.Phi
+			if ei >= 0 && ei < len(r.Results) {
+				eph, _ = returnedValue(r, ei).(*ssa.Phi)
+				if eph != nil && eph.Block() != b {
+					eph = nil
+				}
+			}
+			for i, e := range ph.Edges {
+				pred := b.Preds[i]
+				if !edges[[2]*ssa.BasicBlock{pred, b}] {
+					continue
+				}
+				if eph != nil && definitelyNonNilErr(eph.Edges[i], pred, 0) {
+					continue
+				}
+				if eph == nil && ei >= 0 && ei < len(r.Results) && definitelyNonNilErr(returnedValue(r, ei), b, 0) {
+					continue
+				}
+				if cv, isCv := e.(*ssa.Convert); isCv {
+					e = cv.X
+				}
+				if k, isK := e.(*ssa.Const); isK && k.Value != nil && k.Value.Kind() == constant.Int {
+					vals[k.Int64()] = true
+				} else {
+					ok = false
+				}
+			}
 			continue
 		}
 		if ei >= 0 && ei < len(r.Results) && definitelyNonNilErr(returnedValue(r, ei), b, 0) {
